@@ -27,12 +27,20 @@ func newMsg(kind int) *message.Message {
 		return message.NewMessage("u", []byte("p"))
 	case 1:
 		return message.NewMessage("u", []byte("p")).Copy()
-	default:
+	case 2:
 		return &message.Message{}
+	case 3: // a copy of an already acked message starts unsettled
+		m := message.NewMessage("u", []byte("p"))
+		m.Ack()
+		return m.Copy()
+	default: // a copy of an already nacked zero-value message
+		m := &message.Message{}
+		m.Nack()
+		return m.Copy()
 	}
 }
 
-var kindName = []string{"new", "copy", "zero"}
+var kindName = []string{"new", "copy", "zero", "copy-of-acked", "copy-of-nacked-zero"}
 
 func isClosed(ch <-chan struct{}) bool {
 	select {
@@ -211,7 +219,7 @@ func outcomesOnly(hist [][]call) string {
 }
 
 func init() {
-	for kind := 0; kind < 3; kind++ {
+	for kind := 0; kind < 5; kind++ {
 		kind := kind
 		reg.Add("C03", fmt.Sprintf("seq/%s", kindName[kind]), reg.Quick, func(t reg.Tier) *explore.Scenario {
 			if t == reg.Thorough {
